@@ -8,6 +8,7 @@ import (
 	"sort"
 	"strings"
 	"sync/atomic"
+	"time"
 
 	"github.com/containerd/containerd/v2/core/mount"
 	"github.com/containerd/containerd/v2/core/snapshots"
@@ -45,6 +46,8 @@ type Driver struct {
 	// Aborted is set when the sequence cannot be continued (model and code diverged,
 	// or the snapshotter could not be reopened).
 	Aborted string
+
+	inj *injection
 
 	Before, After []*Model
 	Classes       map[string]int
@@ -147,8 +150,49 @@ func (d *Driver) open(allowInvalid bool, failMounts []int) error {
 	return nil
 }
 
+// injection is a snapshotter call the harness itself makes while the backend Mount of
+// a Prepare(key, target=T) is in progress: Prepare(T, "") or View(T, "") — a key equal
+// to the target name (what a concurrent caller could do during the slow remote mount).
+type injection struct {
+	done chan struct{}
+	kind string
+	err  error
+	late bool // it had not returned when Mount was allowed to go on
+}
+
+// injectAtMount runs the injected call on its own goroutine and waits for it inside the
+// backend Mount. The wait is bounded: prepareRemoteSnapshot keeps a bbolt read
+// transaction open around FileSystem.Mount, and a write transaction that has to grow
+// the memory map waits for all readers, so the injected call can be unable to finish
+// before Mount returns. Then Mount simply goes on (the case counts as "late"; whichever
+// of the two writers commits first decides the outcome, the oracle is the same).
+func (d *Driver) injectAtMount(op Op) {
+	in := &injection{done: make(chan struct{}), kind: op.Inject}
+	d.inj = in
+	sn := d.SN
+	labels := map[string]string{UserLabel: op.Val + "-inj"}
+	go func() {
+		defer close(in.done)
+		if op.Inject == "view" {
+			_, in.err = sn.View(d.ctx, op.Target, "", snapshots.WithLabels(labels))
+		} else {
+			_, in.err = sn.Prepare(d.ctx, op.Target, "", snapshots.WithLabels(labels))
+		}
+	}()
+	select {
+	case <-in.done:
+	case <-time.After(300 * time.Millisecond):
+		in.late = true
+	}
+}
+
 // onCall annotates backend calls with what the committed metadata says right now.
 func (d *Driver) onCall(ev *recfs.Event) {
+	if ev.Kind == recfs.KMount && !ev.Injected && ev.DirExists && d.inj == nil {
+		if op := d.CurOp; op != nil && op.Kind == "prepare" && op.Inject != "" && op.HasTarget {
+			d.injectAtMount(*op)
+		}
+	}
 	if ev.Kind != recfs.KUnmount || !ev.WasMounted {
 		return
 	}
@@ -280,6 +324,32 @@ func (d *Driver) Step(i int, op Op) {
 		}
 		evs := d.FS.Drain()
 		d.judgeUnmounts(op, evs)
+		if in := d.inj; in != nil {
+			select {
+			case <-in.done:
+			case <-time.After(3 * time.Minute):
+				d.Aborted = "watchdog: injected call did not return"
+				d.Cur = -1
+				return
+			}
+			d.inj = nil
+			if in.late {
+				d.Cfg.Count("injected_at_mount_late", 1)
+			}
+			d.Cfg.Count("injected_at_mount_"+in.kind+"_"+errClass(in.err), 1)
+			if in.err == nil {
+				// a snapshot whose key equals the target name now exists, made by "another caller"
+				k := Active
+				if in.kind == "view" {
+					k = View
+				}
+				sn := &Snap{Kind: k, Labels: map[string]string{UserLabel: op.Val + "-inj"}}
+				pre = pre.Clone()
+				pre.Snaps[op.Target] = sn
+				d.M.Snaps[op.Target] = sn.clone()
+				d.class("key_equal_target_created_during_mount")
+			}
+		}
 		d.judgeCreate(op, pre, labels, chain, bad, ms, err, evs)
 	case "mounts":
 		s := pre.Snaps[op.Key]
@@ -598,6 +668,10 @@ func (d *Driver) judgeCreate(op Op, pre *Model, labels map[string]string, chain,
 			// target does not exist at all
 			cl := "target-absent"
 			switch {
+			case op.Inject != "" && tgt != nil && tgt.Kind != Committed:
+				// time of check / time of use: the snapshot of that name appeared while the
+				// backend mount was in progress
+				cl = "target-key-created-during-backend-mount"
 			case op.Target == op.Key, tgt != nil && tgt.Kind != Committed:
 				cl = "target-names-uncommitted-snapshot"
 			case serr == nil:
